@@ -102,6 +102,7 @@ void set_focus(int64_t a, int64_t b);
 // CPU cap knob + cold library
 void set_cpu_cap(int level);        // 0..3
 void make_library_cold();
+void zstd_thread_reset();         // drop the calling thread's cached ZSTD context (guarded hook)
 
 // coverage map (shared across workers)
 void cov_attach(uint8_t* shared_map, size_t size);
